@@ -163,36 +163,21 @@ end init
 
 /-! ## Part 3 — TODAY
 
-The only theorems that depend on which comparison style /repo uses.  Today
-`Validate.checks = checksCur`, so the code's judgement is unsound (with replayable witnesses) and
-only the partial theorem holds.
-
-AFTER /repo rejects NaN: set `fracBad := fracBadFixed`, `probBad := probBadFixed`,
-`sumBad := sumBadFixed` in Validate.lean and replace this whole part by
-
-    theorem C12_today_is_fixed : Validate.checks = checksFixed := rfl
-    /-- FULL: any machine accepted by `Machine::validate` is well-formed -/
-    theorem C12_sound (m : Machine) : Validate.machine m = true → WF m := by
-      rw [machine_eq_with, C12_today_is_fixed]; exact C12_sound_fixed m
+The only theorems that depend on which comparison style /repo uses. Since fix 65165a2 the code
+rejects NaN (`!(x >= lo && x <= hi)` style), `Validate.checks = checksFixed`, and the full
+soundness theorem holds of the model of today's code. The witnesses of Part 2 remain as the
+record of the defect the monitor found in the code before the fix (KNOWN_FINDINGS.json, F1).
 -/
 
-/-- the model mirrors the `x < lo || x > hi` comparisons of today's code -/
-theorem C12_today_is_cur : Validate.checks = checksCur := rfl
+/-- the model mirrors the NaN-rejecting comparisons of today's code -/
+theorem C12_today_is_fixed : Validate.checks = checksFixed := rfl
 
-/-- today's `Machine::validate` accepts the two witnesses, which are not well-formed -/
-theorem C12_unsound_today :
-    (Validate.machine witnessNanFraction = true ∧ ¬ WF witnessNanFraction) ∧
-    (Validate.machine witnessNanProbability = true ∧ ¬ WF witnessNanProbability) := by
-  simp only [machine_eq_with, C12_today_is_cur]
-  exact ⟨C12_unsound_cur_fraction, C12_unsound_cur_probability⟩
+/-- FULL: any machine accepted by `Machine::validate` is well-formed -/
+theorem C12_sound (m : Machine) : Validate.machine m = true → WF m := by
+  rw [machine_eq_with, C12_today_is_fixed]; exact C12_sound_fixed m
 
-/-- hence the full statement is false of the code as it is today -/
-theorem C12_sound_today_false : ¬ ∀ m, Validate.machine m = true → WF m :=
-  fun h => C12_unsound_today.1.2 (h _ C12_unsound_today.1.1)
-
-/-- what holds today: soundness for machines without NaN fractions / probabilities -/
-theorem C12_sound_today_partial (m : Machine) (hnn : InputsSat (· ≠ .nan) m) :
-    Validate.machine m = true → WF m := by
-  rw [machine_eq_with, C12_today_is_cur]; exact C12_sound_cur_partial m hnn
+/-- in particular today's validation accepts no NaN fraction or probability -/
+theorem C12_rejects_nan (m : Machine) (h : Validate.machine m = true) : InputsSat (· ≠ .nan) m := by
+  rw [machine_eq_with, C12_today_is_fixed] at h; exact C12_fixed_rejects_nan m h
 
 end Mb.C12
